@@ -336,6 +336,32 @@ theorem propagateDft_sample_of_shifts {K R : Type} [CommRing R] [RealLike R] [Tr
   rw [e0, e1]
   rfl
 
+/-- **One Fraunhofer sum of the input-plane field, for a common real shift.** When every field of the wavefront carries the same
+real-valued shift `(s0, s1)` (no tilt, a common Tilt plane, `Wavefront(tilt=…)`) and the code splits it with `np.fix` (`tfieldOfShift`),
+sample `[i][j]` of the output is the unitary transform of `Wavefront.field` of the INPUT wavefront evaluated at `g − shift`, inside the
+window centred at `trunc(shift)`, and zero outside — `propagateDft_common_shift` with the split derived, not assumed. -/
+theorem propagateDft_common_real_shift {K R : Type} [CommRing R] [RealLike R] [TruncLike R] [CommRing K] [CxLike K R]
+    (hcast : ∀ n : Int, (RealLike.ofInt n : R) = (n : R))
+    (fs : List (Fld K)) (s0 s1 : R) (W0 W1 : Int) (hWp : 0 < W0 ∧ 0 < W1)
+    (hfit : ∀ f ∈ fs, f.within W0 W1) (hpos : ∀ f ∈ fs, 0 < f.arr.s0 ∧ 0 < f.arr.s1)
+    (αr αc : R) (S0 S1 P0 P1 os : Int) (mask : Option Extent)
+    (hoe : (outExtent (S0 * os) (S1 * os) mask).rmin ≤ (outExtent (S0 * os) (S1 * os) mask).rmax ∧
+           (outExtent (S0 * os) (S1 * os) mask).cmin ≤ (outExtent (S0 * os) (S1 * os) mask).cmax)
+    (hP : 0 < P0 * os ∧ 0 < P1 * os) (i j : Int) (hi : 0 ≤ i ∧ i < S0 * os) (hj : 0 ≤ j ∧ j < S1 * os) :
+    (wavefrontField 1 (propagateDft (fs.map fun f => tfieldOfShift f s0 s1) αr αc S0 S1 P0 P1 os mask) (S0 * os) (S1 * os)).get i j =
+      if (outExtent (S0 * os) (S1 * os) mask).inb (i - S0 * os / 2) (j - S1 * os / 2) &&
+         (propExtent (P0 * os) (P1 * os) (TruncLike.trunc s0) (TruncLike.trunc s1)).inb (i - S0 * os / 2) (j - S1 * os / 2)
+      then fraunhoferAt ⟨wavefrontField 1 fs W0 W1, 0, 0⟩ αr αc (RealLike.ofInt (i - S0 * os / 2) - s0) (RealLike.ofInt (j - S1 * os / 2) - s1)
+      else 0 := by
+  have h := propagateDft_common_shift hcast fs (TruncLike.trunc s0) (TruncLike.trunc s1) (s0 - RealLike.ofInt (TruncLike.trunc s0))
+    (s1 - RealLike.ofInt (TruncLike.trunc s1)) W0 W1 hWp hfit hpos αr αc S0 S1 P0 P1 os mask hoe hP i j hi hj
+  have e0 : (RealLike.ofInt (i - S0 * os / 2 - TruncLike.trunc s0) : R) - (s0 - RealLike.ofInt (TruncLike.trunc s0)) =
+      RealLike.ofInt (i - S0 * os / 2) - s0 := by simp only [hcast]; push_cast; ring
+  have e1 : (RealLike.ofInt (j - S1 * os / 2 - TruncLike.trunc s1) : R) - (s1 - RealLike.ofInt (TruncLike.trunc s1)) =
+      RealLike.ofInt (j - S1 * os / 2) - s1 := by simp only [hcast]; push_cast; ring
+  rw [e0, e1] at h
+  exact h
+
 /-- the real truncation toward zero (`np.fix`): `⌊s⌋` for `s ≥ 0`, `⌈s⌉` otherwise -/
 noncomputable instance instTruncLikeReal : TruncLike ℝ := ⟨fun s => if 0 ≤ s then ⌊s⌋ else ⌈s⌉⟩
 
